@@ -34,7 +34,12 @@ META = {
     "run by an exact correspondence (exhaustive on small shapes, random large) and end-to-end: real "
     "save_cog_with_dask(...).compute() files under synchronous / threaded / seeded random-topological "
     "schedulers are decoded with rasterio(GDAL) and tifffile and their IFD shapes, tile grids, tile order in "
-    "the file and TileOffsets/TileByteCounts tags are compared with the model.",
+    "the file and TileOffsets/TileByteCounts tags are compared with the model.  The end-to-end matrix also spans every codec "
+    "the writer accepts with the GDAL-style level keywords (lossless unless a LERC tolerance was asked for; a codec that cannot "
+    "encode must fail loudly), irregular source chunkings, byte orders, pre-existing destinations / parts directories "
+    "(byte-exact against a save into a fresh path), recomputing the same graph, two graphs in one compute under ambient dask "
+    "configs, a synthetic bytes/bytearray hand-off to the multi-part writer, and every interleaving of two (sampled: three) "
+    "threads' first part writes at the file sink under a deterministic step scheduler.",
     "note": "Known finding (not repaired, reported as KNOWN-FINDING when listed): compression='none' never returns when a "
     "pyramid level is exactly one tile (tifffile drains the endless empty-tile iterator); such configurations are probed "
     "once per run and otherwise not generated.  Rotated GeoBoxes with a 1-pixel side are not generated (finding F12 of C09 "
@@ -631,6 +636,8 @@ def e2e(cfg, workdir: str, tag: str, precomputed: bool = False):
                     fails.append(("destination-not-exactly-new-file",
                                   f"destination state {cfg.get('dst_state')}: file differs from the same save into a fresh path "
                                   f"({os.path.getsize(fn)} bytes)"))
+                    os.unlink(fn)
+                    return facts, fails  # not the new COG: nothing further to decode
     except Exception as e:  # pylint: disable=broad-except
         if probe_err is None and base_codec in LOSSY_CODECS and innermost_in(e, "imagecodecs", "tifffile"):
             probe_err = f"{type(e).__name__}: {str(e)[:80]}"  # the lossy codec's own refusal (sample layout, size)
